@@ -114,6 +114,9 @@ pub fn base_asset() -> AssetId {
 pub fn asset(i: u8) -> AssetId {
     if i == 0 {
         base_asset()
+    } else if i == 2 && base_asset() != AssetId::zeroed() {
+        // on a chain whose base asset is not the all-zero id, the all-zero id is an ordinary asset
+        AssetId::zeroed()
     } else {
         AssetId::new([i; 32])
     }
